@@ -198,10 +198,10 @@ func init() {
 		LevelNote: "callees that can only return nil or lexical errors of package parser are exempt by derivation; reviewed exceptions (recovery scans, speculative re-evaluation) are printed in the evidence", DesignRef: "4 ED; 5 C07"})
 
 	claim("C09", PropertySpec{
-		Engines: []EngineSpec{rules("REG", "REG-type")},
-		Clause: "Narrow clause: every placeholder kind that only the configuration vocabulary can build (Self, Unify, OptionalUnify, Argument, SelfArray, KeyValueArray, BlockResultArray, Owner, …) is referenced by a comparison or case in the resolvers, and type rendering has a case for every constructible kind.",
-		NotCovered: "every value the resolver computes; literals, arrays, hashes, assignment",
-	}, propMeta{Technique: "exhaustiveness of kind constants over resolved objects (constructor call sites vs. switch cases vs. resolver references)",
+		Engines: []EngineSpec{rules("REG", "REG-type"), all("SLOT")},
+		Clause: "Narrow clauses: the pointer the parser hands out as assignable value (for a bare variable, the variable's own table entry, which the next assignment overwrites in place) is never retained inside a container value, so a stored element keeps the type it had when it was stored while the variable takes the type of its most recent assignment; every placeholder kind that only the configuration vocabulary can build (Self, Unify, OptionalUnify, Argument, SelfArray, KeyValueArray, BlockResultArray, Owner, …) is referenced by a comparison or case in the resolvers, and type rendering has a case for every constructible kind.",
+		NotCovered: "every value the resolver computes; literals, arrays, hashes, assignment beyond the aliasing discipline",
+	}, propMeta{Technique: "exhaustiveness of kind constants over resolved objects (constructor call sites vs. switch cases vs. resolver references); def-use escape analysis of assignable slot pointers over go/ssa",
 		LevelText: "all kind constants are enumerated from constructor call sites; agreement with the rendering switch and the resolvers is decided exactly.",
 		LevelNote: "'referenced' means the constant object is used in a comparison or case label in eval or eval/method_evaluator, whatever the dispatch shape", DesignRef: "4 REG-type; 5 C09"})
 
@@ -247,8 +247,8 @@ func init() {
 	}, propMeta{Technique: "must-pass-through over the SSA CFG + agreement of string constants", LevelText: "all snapshot call sites and all round comparisons are enumerated and decided.", LevelNote: "snapshot/restore functions resolved by role (writer/reader of the package-level map[FrameKey]T)", DesignRef: "4 PAIR, REG-rounds; 5 C15"})
 
 	claim("C16", PropertySpec{
-		Engines: []EngineSpec{rules("PAIR", "PAIR-byvalue", "PAIR-ctx"), rules("ORD", "ORD-flat")},
-		Clause: "Visibility state cannot outlive its class body: the evaluator interface takes the Context by value, and every function that sets flags through a *Context parameter resets them in a defer or is called only with the address of the caller's own by-value context; and the registry used to decide 'parent is a Builtin-frame class' keeps the frame (ORD-flat).",
+		Engines: []EngineSpec{rules("PAIR", "PAIR-byvalue", "PAIR-ctx"), rules("ORD", "ORD-flat"), rules("REC", "REC-key")},
+		Clause: "Visibility state cannot outlive its class body: the evaluator interface takes the Context by value, and every function that sets flags through a *Context parameter resets them in a defer or is called only with the address of the caller's own by-value context; and the registry used to decide 'parent is a Builtin-frame class' keeps the frame (ORD-flat); the ancestor walks (superclass chains of any depth, mixins) keep a visited set keyed by the full node, so no ancestor is pruned because a same-named class was seen (REC-key).",
 		NotCovered: "resolution order, new/initialize, protected checks",
 	}, propMeta{Technique: "typestate-style flag pairing over go/ssa + call-graph check of pointer provenance", LevelText: "all functions with a *Context parameter and all their call sites are enumerated and decided.", LevelNote: "trusts the VTA call graph for callers", DesignRef: "4 PAIR; 5 C16"})
 
@@ -295,20 +295,20 @@ func init() {
 	}, propMeta{Technique: "call-graph effect reachability from speculative roots; provenance rule over the type-checked AST for qualified-name keys", LevelText: "all speculative roots and all qualified-name concatenations are enumerated and decided.", LevelNote: "speculative root = by-value Parser parameter that some caller fills with *ptr", DesignRef: "4 ORD-spec; 5 C24"})
 
 	claim("C27", PropertySpec{
-		Engines: []EngineSpec{rules("ORD", "ORD-frame", "ORD-key")},
-		Clause: "In an evaluator that switches the frame of its context, every frame read that feeds a registry key (inheritance node, defined-class and method table setters) is dominated by the switch, so that all keys of one class definition use one frame; every frame-qualified name built by concatenation reads frame and class from the same object.",
+		Engines: []EngineSpec{rules("ORD", "ORD-frame", "ORD-key"), rules("REC", "REC-key")},
+		Clause: "In an evaluator that switches the frame of its context, every frame read that feeds a registry key (inheritance node, defined-class and method table setters) is dominated by the switch, so that all keys of one class definition use one frame; every frame-qualified name built by concatenation reads frame and class from the same object; the visited sets of the inheritance walks are keyed by the full node (frame and class), not by a projection of it.",
 		NotCovered: "qualified reference evaluation, configured-name collisions (C16/C20)",
 	}, propMeta{Technique: "dominance rule over go/ssa", LevelText: "all frame reads feeding keys in frame-switching evaluators are enumerated and decided.", LevelNote: "SetFrame/GetFrame anchored by name on context.Context", DesignRef: "4 ORD-frame; 5 C27"})
 
 	claim("C25", PropertySpec{
-		Engines: []EngineSpec{inPkgs("MO", "cmd/rbs2json"), rules("ORD", "ORD-args"), funcs("REGJ", "cmd/rbs2json")},
-		Clause: "No range over a map in rbs2json leaks iteration order into the emitted JSON; the argument converter appends the six parameter groups in signature order and sets is_default / is_asterisk / key exactly for the groups that need them (groups and flags resolved through their JSON tags); every JSON key the tool emits is read, at the same nesting and with a compatible type, by the loader's structs, and every type-name constant it can emit is a loader keyword or a configured class.",
-		NotCovered: "RBS type mapping beyond name agreement, arity as checked by ti",
+		Engines: []EngineSpec{inPkgs("MO", "cmd/rbs2json"), rules("ORD", "ORD-args"), funcs("REGJ", "cmd/rbs2json"), inPkgs("LA", "builtin")},
+		Clause: "No range over a map in rbs2json leaks iteration order into the emitted JSON; the argument converter appends the six parameter groups in signature order and sets is_default / is_asterisk / key exactly for the groups that need them (groups and flags resolved through their JSON tags); every JSON key the tool emits is read, at the same nesting and with a compatible type, by the loader's structs, and every type-name constant it can emit is a loader keyword or a configured class; in the loader that turns the emitted arguments into parameter values, every address retained per loop iteration (keyword parameters keep a pointer to their type) points to a variable of that iteration.",
+		NotCovered: "RBS type mapping beyond name agreement, arity as checked by ti beyond the loader's aliasing discipline",
 	}, propMeta{Technique: "effect classification of map-range bodies over the type-checked AST", LevelText: "every map range of the tool is enumerated and classified.", LevelNote: "conservative classification", DesignRef: "4 MO; 5 C25"})
 
 	claim("C26", PropertySpec{
 		Engines: []EngineSpec{inPkgs("MO", "cmd/c2json"), funcs("REGJ", "cmd/c2json")},
-		Clause: "No range over a map in c2json leaks iteration order into the emitted JSON (this settles the sentence 'the output is deterministic' for all inputs as far as map order is concerned); every JSON key the tool emits is read by the loader's structs with a compatible type, and every type-name constant it can emit (after the loader's ? * notation rules) is a loader keyword or a configured class.",
-		NotCovered: "the arity equivalence (regex heuristics over C text)",
+		Clause: "No range over a map in c2json leaks iteration order into the emitted JSON (this settles the sentence 'the output is deterministic' for all inputs as far as map order is concerned); every JSON key the tool emits is read by the loader's structs with a compatible type, and every type-name constant it can emit (after the loader's ? * notation rules) is a loader keyword or a configured class; a `?T` / `*T` entry, which the loader reads as default / rest only in a one-entry type list (derived from the loader on every run), is never put into or left in a longer list.",
+		NotCovered: "the arity equivalence beyond that (regex heuristics over C text)",
 	}, propMeta{Technique: "effect classification of map-range bodies over the type-checked AST", LevelText: "every map range of the tool is enumerated and classified.", LevelNote: "conservative classification", DesignRef: "4 MO; 5 C26"})
 }
